@@ -648,7 +648,7 @@ fn hof(h: &mut Fnv, v: Option<f32>) {
     }
 }
 
-fn metadata(
+pub fn metadata(
     acc: &mut Acc,
     font: &FontRef,
     plan: &Plan,
